@@ -2,9 +2,8 @@
    dl.hist OP OP ...  runs the history on the L2 mirror (Dl/Blob.v with SHA-256) and prints after
    EVERY operation  RESULT|BLOB|KV|IR  (+ |ROOT|PROOFS after `h`), exactly what harness vh_dl prints.
    The last token "@flags" is model-only: per operation, whether the abstraction link holds
-   (a = abs(s') equals the L1 operation applied to abs(s), results agree, the executable invariant
-   holds and reloading the bytes gives an equivalent blob; K = known class F-C18-1/2 of the plain map;
-   S = stale-index insert; X = link broken; . = not evaluated after a K/S operation). *)
+   (a = abs(s') equals the L1 operation applied to abs(s), results agree at L0/L1/L2, the executable
+   invariant holds and reloading the bytes gives an equivalent blob; X = link broken). *)
 From Coq Require Import String.
 From ChiaV.Base Require Import Bytes Sha256.
 From ChiaV.Gen Require Import Dl.
@@ -153,28 +152,23 @@ Definition reload_equiv (s : mblob) : bool :=
 (* [deep]: also evaluate the hash part of the invariant (every clean internal hash recomputed): done after
    hashing operations and after the last operation; in between it follows from the L1 theorems *)
 Definition link_flag (deep : bool) (o : op) (s : mblob) (m : kvmap) (x : res (option N)) (s' : mblob) : byte * kvmap :=
-  match op_to_top s o with
-  | None => (x53, m)
-  | Some t =>
-      let m' := snd (step0 t m) in
-      if known_top m t then (x4b, m')
-      else
-        match abs s with
-        | Some ot =>
-            let '(ok1, ot1) := step1 sha256 t ot in
-            let good :=
-              match abs s' with
-              | Some ot2 => otree_eqb ot1 ot2
-              | None => false
-              end
-              && Bool.eqb ok1 (is_ok x) && Bool.eqb ok1 (fst (step0 t m))
-              && inv_b s' && (negb deep || wf_b sha256 s') && reload_equiv s' in
-            ((if good then x61 else x58), m')
-        | None => (x58, m')
+  let t := op_to_top s o in
+  let m' := snd (step0 t m) in
+  match abs s with
+  | Some ot =>
+      let '(ok1, ot1) := step1 sha256 t ot in
+      let good :=
+        match abs s' with
+        | Some ot2 => otree_eqb ot1 ot2
+        | None => false
         end
+        && Bool.eqb ok1 (is_ok x) && Bool.eqb ok1 (fst (step0 t m))
+        && inv_b s' && (negb deep || wf_b sha256 s') && reload_equiv s' in
+      ((if good then x61 else x58), m')
+  | None => (x58, m')
   end.
 
-(* [tainted]: a known-class operation has happened; the link is not evaluated any more ('.') *)
+(* [tainted] is never set any more (there are no known classes after the repairs) *)
 Fixpoint run_hist (toks : list bytes) (s : mblob) (m : kvmap) (tainted : bool) (outs : list bytes) (flags : bytes)
   : list bytes * bytes :=
   match toks with
